@@ -370,6 +370,8 @@ def item_values(d, ep, inp, out, x):
         if k == "ok":
             vals.append(dec_value(d, out["v"]))
         return vals
+    elif ep in ("try_new_const", "new_const"):
+        vals.append(dec_value(d, inp["v"]))
     elif ep == "arb_cover":
         for lo_, hi_ in out.get("runs", []):
             vals.append(int(lo_))
@@ -455,6 +457,8 @@ def model_item(d, proj, ep, inp, out, x):
         if d["fam"] == "string" and not inner["ok"]:
             env = {"trim": [], "lower": [], "upper": []}
         return mi, model_out(d, proj, out), env
+    if ep in ("try_new_const", "new_const"):
+        return {"ok": True, "v": [proj.model(dec_value(d, inp["v"]))]}, model_out(d, proj, out), env
     if ep in CANON_EPS:
         if not x.get("rt", True):
             return None      # the environment itself does not round-trip this value: nothing is demanded
@@ -526,7 +530,7 @@ def project(decls_by_id, obs_path):
                 raw.append((inp, out, x))
             if not ins:
                 continue
-            ep = "canon" if b["ep"] in CANON_EPS else b["ep"]
+            ep = "canon" if b["ep"] in CANON_EPS else {"try_new_const": "try_new", "new_const": "new"}.get(b["ep"], b["ep"])
             events.append({"d": did, "ep": ep, "ins": ins, "outs": outs, "envs": envs})
             index.append((did, b["ep"], raw))
     return table, events, index
